@@ -139,7 +139,7 @@ def run(ctx):
         for k in sorted(by):
             pick += rng.sample(by[k], min(3 if k[2] else 8, len(by[k])))
         lite = [r for r in plain if r["out"] != "staticpie"]
-        pick += rng.sample(lite, 170) + rng.sample([r for r in plain if r["out"] == "staticpie"], 14)
+        pick += rng.sample(lite, 110) + rng.sample([r for r in plain if r["out"] == "staticpie"], 8)
     else:
         pick = recs
     with scratch("c23") as d:
@@ -193,7 +193,7 @@ def run(ctx):
         cases = []
         for r in base:
             if ctx.quick:
-                sel = rng.sample(combos, 6 if r["out"] == "staticpie" else 22)
+                sel = rng.sample(combos, 4 if r["out"] == "staticpie" else 14)
             else:
                 sel = combos if r["out"] != "staticpie" else rng.sample(combos, 60)
             for combo in sel:
